@@ -185,6 +185,69 @@ func indexOf(s, sub string) int {
 	return -1
 }
 
+// aliasRebind: one alias (or imported name) bound to macros of two different libraries, in the same template, in an
+// included partial, in a macro body and in a loop. Each call must reach the library the nearest import named, and the
+// includer's / caller's binding is untouched afterwards. Expected output is known by construction.
+func (p *c12) aliasRebind(rec *core.Recorder, r *core.Rand) {
+	a, b, c := fmt.Sprint(r.Range(1, 99)), fmt.Sprint(r.Range(100, 199)), fmt.Sprint(r.Range(200, 299))
+	alias := []string{"m", "forms", "lib", "x"}[r.Intn(4)]
+	srcs := map[string]string{
+		"la": "{% macro x(v, w = 'da') %}<a:{{ v }}:{{ w }}>{% endmacro %}",
+		"lb": "{% macro x(v, w = 'db') %}<b:{{ v }}:{{ w }}>{% endmacro %}",
+	}
+	A := func(v string) string { return "<a:" + v + ":da>" }
+	B := func(v string) string { return "<b:" + v + ":db>" }
+	var want string
+	v := r.Intn(9)
+	switch v {
+	case 0:
+		srcs["main"] = "{% import 'la' as " + alias + " %}{{ " + alias + ".x(" + a + ") }}|{% import 'lb' as " + alias + " %}{{ " + alias + ".x(" + b + ") }}"
+		want = A(a) + "|" + B(b)
+	case 1:
+		srcs["main"] = "{% import 'la' as " + alias + " %}{{ " + alias + ".x(" + a + ") }}|{% include 'part' %}|{{ " + alias + ".x(" + c + ") }}"
+		srcs["part"] = "{% import 'lb' as " + alias + " %}{{ " + alias + ".x(" + b + ") }}"
+		want = A(a) + "|" + B(b) + "|" + A(c)
+	case 2:
+		srcs["main"] = "{% import 'la' as " + alias + " %}{% import 'lc' as caller %}{{ " + alias + ".x(" + a + ") }}|{{ caller.call(" + b + ") }}|{{ " + alias + ".x(" + c + ") }}"
+		srcs["lc"] = "{% macro call(v) %}{% import 'lb' as " + alias + " %}{{ " + alias + ".x(v) }}{% endmacro %}"
+		want = A(a) + "|" + B(b) + "|" + A(c)
+	case 3:
+		srcs["main"] = "{% from 'la' import x %}{{ x(" + a + ") }}|{% from 'lb' import x %}{{ x(" + b + ") }}"
+		want = A(a) + "|" + B(b)
+	case 4:
+		srcs["main"] = "{% from 'la' import x as " + alias + "f %}{{ " + alias + "f(" + a + ") }}|{% from 'lb' import x as " + alias + "f %}{{ " + alias + "f(" + b + ") }}"
+		want = A(a) + "|" + B(b)
+	case 5:
+		srcs["main"] = "{% for n in ['la', 'lb', 'la'] %}{% import n as " + alias + " %}{{ " + alias + ".x(loop.index) }}{% endfor %}"
+		want = A("1") + B("2") + A("3")
+	case 6:
+		srcs["main"] = "{% import 'la' as " + alias + " %}{{ " + alias + ".x(" + a + ") }}|{% include 'part' only %}|{{ " + alias + ".x(" + c + ") }}"
+		srcs["part"] = "{% import 'lb' as " + alias + " %}{{ " + alias + ".x(" + b + ") }}"
+		want = A(a) + "|" + B(b) + "|" + A(c)
+	case 7:
+		srcs["main"] = "{% from 'la' import x %}{{ x(" + a + ") }}|{% include 'part' %}|{{ x(" + c + ") }}"
+		srcs["part"] = "{% from 'lb' import x %}{{ x(" + b + ") }}"
+		want = A(a) + "|" + B(b) + "|" + A(c)
+	default:
+		srcs["main"] = "{% import 'la' as " + alias + " %}{% for i in [1, 2] %}{% include 'part' %}{{ " + alias + ".x(i) }}{% endfor %}"
+		srcs["part"] = "{% import 'lb' as " + alias + " %}{{ " + alias + ".x('p') }}"
+		want = B("p") + A("1") + B("p") + A("2")
+	}
+	canon := canonSrcs(srcs)
+	rec.Eval("alias-rebind", canon, true)
+	rec.Count(fmt.Sprintf("alias-rebind:%d", v), 1)
+	res := renderFresh(srcs, "main", nil, nil)
+	if res.Panicked {
+		rec.Violate("panic", "panic@"+res.Site, "engine panicked: "+res.PanicVal, map[string]any{"templates": srcs}, res.Stack)
+		return
+	}
+	if res.Err != nil || res.Out != want {
+		rec.Violate("alias-rebind", fmt.Sprintf("c12-alias-rebind:%d", v),
+			fmt.Sprintf("a macro reached through a re-bound alias/imported name gave %s (err=%v), the nearest import requires %s; main %s", core.Q(core.Trunc(res.Out, 200)), res.Err, core.Q(want), core.Q(srcs["main"])),
+			map[string]any{"templates": srcs, "expected": want}, "")
+	}
+}
+
 func (p *c12) Run(rec *core.Recorder, seed uint64, idx int, tier string) {
 	var c c12Case
 	class := "grid"
@@ -209,6 +272,9 @@ func (p *c12) Run(rec *core.Recorder, seed uint64, idx int, tier string) {
 		}
 		c.argSeed = uint64(idx/100) + seed*1000003
 		c.tight = idx%7 == 3
+	} else if idx%50 == 7 {
+		p.aliasRebind(rec, core.NewRand("C12alias", seed, idx))
+		return
 	} else {
 		r := core.NewRand("C12", seed, idx)
 		c = c12Case{n: r.Range(0, 3), form: r.Intn(5), site: r.Intn(5), body: r.Intn(4), tight: r.P(1, 4), argSeed: r.U64()}
